@@ -101,7 +101,7 @@ class Engine:
         self.scn = scn
         self.monitors = list(monitors)
         self.root = core.scratch_root()
-        self.path = os.path.join(self.root, 'ck.h5') if scn['file'] else None
+        self.path = os.path.join(self.root, 'ck' + scn['ext']) if scn['file'] else None
         self.clock = scen.install_clock()
         install_tally()
         self.violations = []
@@ -196,7 +196,8 @@ class Engine:
         pre = st.sampler()
         post = st.sampler()
         for s in (pre, post):
-            s.filepath = self.path
+            s.filepath = self.path if not scn['pathlib'] or self.path is None else \
+                __import__('pathlib').Path(self.path)
         scen.log_reset()
         del TALLY[:]
         del EVALS[:]
